@@ -32,6 +32,8 @@ typedef struct {
 	uint32_t maxdist; size_t reach_before_mark, reach_before_start; long nblocks, nmatch, nlit; int maxcodelen_lit, maxcodelen_dist;
 	struct { uint8_t type, final; size_t bit_start, bit_end, out_start; } blk[RI_MAXBLOCKS];
 	long nstored, nfixed, ndyn;
+	/* largest number of bits of one literal immediately followed by one length/distance pair (encoders that emit such a group with a single bit-buffer write are limited by it) */
+	uint32_t max_group_bits, last_lit_bits; int prev_lit; long groups_over_56;
 } rinf_t;
 typedef struct { uint16_t count[16], sym[320]; } rh_t;
 static inline uint32_t ri_bits(rinf_t *r, int n)
@@ -66,15 +68,17 @@ static const uint16_t RI_DB[30] = {1,2,3,4,5,7,9,13,17,25,33,49,65,97,129,193,25
 static int ri_codes(rinf_t *r, const rh_t *ll, const rh_t *dd, int have_dist)
 {
 	for (;;) {
+		size_t b0 = r->bitpos;
 		int s = rh_dec(r, ll); if (r->err) return -1;
-		if (s < 256) { if (r->outlen >= r->outcap) { r->err = RI_OUTFULL; return -1; } r->out[r->outlen++] = (uint8_t) s; r->nlit++; continue; }
-		if (s == 256) return 0;
+		if (s < 256) { if (r->outlen >= r->outcap) { r->err = RI_OUTFULL; return -1; } r->out[r->outlen++] = (uint8_t) s; r->nlit++; r->last_lit_bits = (uint32_t) (r->bitpos - b0); r->prev_lit = 1; continue; }
+		if (s == 256) { r->prev_lit = 0; return 0; }
 		s -= 257; if (s >= 29) { r->err = RI_BADLENSYM; return -1; }
 		int len = RI_LB[s] + (int) ri_bits(r, RI_LX[s]); if (r->err) return -1;
 		if (!have_dist) { r->err = RI_DISTNOCODE; return -1; }
 		int d = rh_dec(r, dd); if (r->err) return -1;
 		if (d >= 30) { r->err = RI_BADDISTSYM; return -1; }
 		uint32_t dist = RI_DB[d] + ri_bits(r, RI_DX[d]); if (r->err) return -1;
+		{ uint32_t g = (uint32_t) (r->bitpos - b0) + (r->prev_lit ? r->last_lit_bits : 0); if (g > r->max_group_bits) r->max_group_bits = g; if (g > 56) r->groups_over_56++; r->prev_lit = 0; }
 		if (dist > r->outlen + r->dictlen) { r->err = RI_FARDIST; return -1; }
 		if (r->window && dist > r->window) { r->err = RI_WINDOW; return -1; }
 		if (dist > r->maxdist) r->maxdist = dist;
